@@ -19,7 +19,7 @@ CLAIM = dict(
           "moveaxis with one source and one destination axis (moveaxis(a, s, d) or one-element lists, negative spellings included) is proved for "
           "EVERY dimension: the library's order is NumPy's, a permutation, shape / element / in-bounds follow. "
           "index::argsort (the insertion sort moveaxis orders the destinations with) returns, for EVERY key list, a permutation of the "
-          "positions along which the keys ascend (stability: correspondence with numpy.argsort(kind=stable) only). "
+          "positions along which the keys ascend (the order of equal keys is not part of C03: moveaxis sorts distinct destinations; only distinct key lists are judged). "
           "PARTIAL: moveaxis with axis LISTS is proved for sources of dimension <= 5 (any extents) by a kernel "
           "sweep of the finite argument space; above that lists are corresponded only. "
           "REFUTED (listed finding): a 0-d result (squeeze of an all-ones shape, reshape to ()) comes back as Nothing. "
@@ -39,7 +39,7 @@ RULE = ("all source shapes dim 1..4 extents 1..3 (quick; thorough: extents 1..4)
         "((2,3),(2,3,4),(2,3,4,5) in every arrangement): every ordered sub-list (ascending, descending, shuffled), written "
         "non-negatively / all-negatively / with mixed signs, lengths 1..dim, held in std::vector<int|size_t>, static_vector, "
         "std::array<int|size_t>, int[N], run-time tuple and tuple of constants (drivers/c03_lists.cpp); "
-        "sampled larger shapes (dim <= 5, extents <= 7); argsort: key lists of length 1..9 with ties and negative keys in 3 container kinds; high_dim: sources of dimension 6..8 (extents 1..3) under moveaxis (single axes and lists, view and index level), swapaxes, transpose, flip; a malformed stream (spec 'unspecified', only crashes are looked at by C15). "
+        "sampled larger shapes (dim <= 5, extents <= 7); argsort: key lists of length 1..9 (80% distinct = judged; ties are run but not judged), negative keys, 3 container kinds; high_dim: sources of dimension 6..8 (extents 1..3) under moveaxis (single axes and lists, view and index level), swapaxes, transpose, flip; a malformed stream (spec 'unspecified', only crashes are looked at by C15). "
         "non-trivial = source of dim >= 2 with some extent > 1; distinct = distinct case lines")
 THEOREM_STATUS = {
     "proved": ["C03_reshape_shape", "C03_reshape_C_order", "C03_flatten", "C03_transpose_shape", "C03_transpose_element",
@@ -324,7 +324,8 @@ def gen_cases(rng, tier):
     for _ in range(400 if quick else 4000):
         n = rng.randint(1, 9)
         lo = rng.choice([0, 0, -3]); hi = rng.choice([2, 4, 9])
-        keys = [rng.randint(lo, hi) for _ in range(n)]
+        keys = [rng.randint(lo, hi) for _ in range(n)]        # with ties: outside the judged domain (stability is not C03's)
+        if rng.random() < 0.8: keys = rng.sample(range(lo, lo + 12), n)   # distinct keys: the sorting permutation is unique
         add("argsort", "argsort S:%s %s" % (rng.choice(["veci", "sv"] if lo < 0 else ["vec", "veci", "sv"]), L(keys)))
     # ---------------- larger shapes (boundary of the small scope)
     for _ in range(250 if quick else 2500):
